@@ -160,9 +160,10 @@ pub fn gen_tree(r: &mut Rng, index: usize) -> GenTree {
             }
         }
     }
-    // random part
+    // random part (none for some trees: a tree that is just one empty directory is an archive
+    // without members in the forms that carry no directory members)
     let mut dirs: Vec<String> = vec![String::new()];
-    let depth = r.range(1, 4);
+    let depth = if index % 28 == 4 { 0 } else { r.range(1, 4) };
     for d in 0..depth {
         let parents: Vec<String> = dirs.iter().filter(|p| p.matches('/').count() + usize::from(!p.is_empty()) == d).cloned().collect();
         for p in parents {
@@ -177,7 +178,7 @@ pub fn gen_tree(r: &mut Rng, index: usize) -> GenTree {
         }
     }
     for d in dirs.clone() {
-        for _ in 0..r.below(5) {
+        for _ in 0..if index % 28 == 4 { 0 } else { r.below(5) } {
             let (stem, class) = *r.pick(&STEMS);
             let ext = *r.pick(&EXTS);
             let name = if ext.is_empty() { stem.to_string() } else { format!("{stem}.{ext}") };
@@ -316,7 +317,23 @@ pub fn tar_bytes(t: &GenTree, order: usize, with_dirs: bool, prefix: &str, r: &m
     let mut b = tar::Builder::new(Vec::new());
     for (p, is_dir) in members(t, order, with_dirs, r) {
         let mut h = tar::Header::new_gnu();
-        let name = format!("{prefix}{p}{}", if is_dir { "/" } else { "" });
+        let mut name = format!("{prefix}{p}{}", if is_dir { "/" } else { "" });
+        // the tar crate refuses to *write* names with '..'; other tools do write them: put the
+        // bytes into the header ourselves (short names only)
+        let raw_name = name.contains("..") && name.len() <= 100;
+        if name.contains("..") && !raw_name {
+            name = format!("{p}{}", if is_dir { "/" } else { "" });
+        }
+        if raw_name {
+            let c: &[u8] = if is_dir { &[] } else { t.files.get(&p).or_else(|| t.extras.get(&p)).expect("member content") };
+            h.set_entry_type(if is_dir { tar::EntryType::Directory } else { tar::EntryType::Regular });
+            h.set_size(c.len() as u64);
+            h.set_mode(if is_dir { 0o755 } else { 0o644 });
+            h.as_old_mut().name[..name.len()].copy_from_slice(name.as_bytes());
+            h.set_cksum();
+            b.append(&h, c).unwrap();
+            continue;
+        }
         if is_dir {
             h.set_entry_type(tar::EntryType::Directory);
             h.set_size(0);
@@ -336,14 +353,18 @@ pub fn tar_bytes(t: &GenTree, order: usize, with_dirs: bool, prefix: &str, r: &m
 }
 
 pub fn zip_bytes(t: &GenTree, order: usize, with_dirs: bool, deflate: bool, r: &mut Rng) -> Vec<u8> {
+    zip_bytes_prefixed(t, order, with_dirs, deflate, "", r)
+}
+
+pub fn zip_bytes_prefixed(t: &GenTree, order: usize, with_dirs: bool, deflate: bool, prefix: &str, r: &mut Rng) -> Vec<u8> {
     let mut z = zip::ZipWriter::new(std::io::Cursor::new(Vec::new()));
     let method = if deflate { zip::CompressionMethod::Deflated } else { zip::CompressionMethod::Stored };
     let opts = zip::write::FileOptions::default().compression_method(method);
     for (p, is_dir) in members(t, order, with_dirs, r) {
         if is_dir {
-            z.add_directory(p, opts).unwrap();
+            z.add_directory(format!("{prefix}{p}"), opts).unwrap();
         } else {
-            z.start_file(p.clone(), opts).unwrap();
+            z.start_file(format!("{prefix}{p}"), opts).unwrap();
             z.write_all(t.files.get(&p).or_else(|| t.extras.get(&p)).expect("member content")).unwrap();
         }
     }
@@ -361,7 +382,8 @@ pub struct Materialised {
 /// Writes the tree in every form and opens every source on it.
 pub fn materialise(t: &GenTree, r: &mut Rng, tag: &str, with_python: bool) -> Materialised {
     let dir = crate::util::scratch_dir(tag);
-    let root = dir.join("root");
+    // a dot in the name of the root directory itself is none of the ids' business
+    let root = dir.join("root.v2");
     write_to_disk(t, &root);
     let mut sources: Vec<(Form, Box<dyn Source + Send + Sync>)> = vec![];
     let mut open_errors = vec![];
@@ -372,9 +394,51 @@ pub fn materialise(t: &GenTree, r: &mut Rng, tag: &str, with_python: bool) -> Ma
         )),
         Err(e) => open_errors.push(("filesystem".into(), e.to_string())),
     }
+    // the same tree with some files and one directory living elsewhere, reached through symbolic
+    // links (the filesystem source follows links everywhere)
+    #[cfg(not(miri))]
+    {
+        let root_l = dir.join("root-links");
+        let store = dir.join("store");
+        std::fs::create_dir_all(&root_l).unwrap();
+        std::fs::create_dir_all(&store).unwrap();
+        let mut k = 0usize;
+        // one top-level directory of the tree becomes a link
+        let linked_dir: Option<String> = t.dirs.iter().find(|d| !d.contains('/')).cloned().filter(|_| r.chance(2, 3));
+        if let Some(d) = &linked_dir {
+            let target = store.join("dir0");
+            std::fs::create_dir_all(&target).unwrap();
+            std::os::unix::fs::symlink(&target, root_l.join(d)).unwrap();
+        }
+        for d in &t.dirs {
+            std::fs::create_dir_all(root_l.join(d)).unwrap();
+        }
+        for (p, c) in t.files.iter().chain(&t.extras) {
+            let path = root_l.join(p);
+            if let Some(parent) = path.parent() {
+                std::fs::create_dir_all(parent).unwrap();
+            }
+            if r.chance(1, 3) {
+                k += 1;
+                let target = store.join(format!("f{k}"));
+                std::fs::write(&target, c).unwrap();
+                std::os::unix::fs::symlink(&target, &path).unwrap();
+            } else {
+                std::fs::write(&path, c).unwrap();
+            }
+        }
+        match FileSystem::new(&root_l) {
+            Ok(fs) => sources.push((
+                Form { label: "filesystem:symlinks".into(), kind: "filesystem", dir_members: true,
+                       detail: json!({"symbolic_links_to_files": k, "directory_behind_a_link": linked_dir}) },
+                Box::new(fs),
+            )),
+            Err(e) => open_errors.push(("filesystem:symlinks".into(), e.to_string())),
+        }
+    }
     // in-process archives
     let mut n = 0;
-    for (order, with_dirs, prefix) in [(0usize, true, ""), (1, true, ""), (2, true, "./"), (0, false, ""), (2, false, "")] {
+    for (order, with_dirs, prefix) in [(0usize, true, ""), (1, true, ""), (2, true, "./"), (0, false, ""), (2, false, ""), (2, false, "pad/../")] {
         n += 1;
         if cfg!(miri) && n > 2 {
             continue;
@@ -396,13 +460,13 @@ pub fn materialise(t: &GenTree, r: &mut Rng, tag: &str, with_python: bool) -> Ma
             Err(e) => open_errors.push((label, e.to_string())),
         }
     }
-    for (order, with_dirs, deflate) in [(0usize, true, false), (1, true, true), (2, false, true), (0, false, false)] {
+    for (order, with_dirs, deflate, prefix) in [(0usize, true, false, ""), (1, true, true, ""), (2, false, true, ""), (0, false, false, ""), (2, false, false, "pad/../")] {
         n += 1;
-        if cfg!(miri) && (deflate || with_dirs) {
+        if cfg!(miri) && (deflate || with_dirs || !prefix.is_empty()) {
             continue;
         }
-        let bytes = zip_bytes(t, order, with_dirs, deflate, r);
-        let detail = json!({"writer": "zip crate", "order": ORDERS[order], "dir_members": with_dirs,
+        let bytes = zip_bytes_prefixed(t, order, with_dirs, deflate, prefix, r);
+        let detail = json!({"writer": "zip crate", "order": ORDERS[order], "dir_members": with_dirs, "prefix": prefix,
             "compression": if deflate { "deflated" } else { "stored" }});
         let label = format!("zip:rust{n}");
         let path = dir.join(format!("rust{n}.zip"));
